@@ -1,5 +1,6 @@
 use crate::errors::ParseError;
 use crate::errors::SwiftValidationError;
+use crate::fields::swift_utils::amounts_equal;
 use crate::fields::*;
 use crate::parser::MessageParser;
 use crate::parser::utils::*;
@@ -177,10 +178,9 @@ impl MT204 {
         let sum_of_transactions = self.calculate_sum_of_transactions();
         let field_19_amount = self.sum_of_amounts.amount;
 
-        // Use a small epsilon for floating-point comparison (0.01 = 1 cent)
         let difference = (field_19_amount - sum_of_transactions).abs();
 
-        if difference > 0.01 {
+        if !amounts_equal(field_19_amount, sum_of_transactions) {
             return Some(SwiftValidationError::content_error(
                 "C01",
                 "19",
